@@ -24,7 +24,7 @@ for m in metas:
     r = m.get('round', 1)
     rounds[r] = rounds.get(r, 0) + 1
     h = m.get('history', '')
-    if 'missed at first' in h or 'itself missed' in h:
+    if 'missed at first' in h or 'itself missed' in h or 'missed it' in h:
         missed[r] = missed.get(r, 0) + 1
 out = []
 out.append('# Seeded changes\n')
@@ -35,16 +35,20 @@ demonstration passes on the unchanged tree and fails with the change (re-verifie
 them is ever committed to /repo.  `seedtest.py seeded/<id>` applies the patch, runs the property's check and undoes it
 (`--scratch`: against a throw-away copy of /repo).
 
-Three rounds of 20 (one per property each).  Round 2 was asked to avoid the most central function of each mechanism and
+Four rounds of 20 (one per property each).  Round 2 was asked to avoid the most central function of each mechanism and
 to look at fallbacks, tear-down, the less common poll methods, reuse and module interactions; round 3 was asked for
 unusual-but-valid API sequences, kernel-return-dependent behaviour, interactions between modules and histories of three
-or more steps.  `C15-d3` is not a sub-agent's change: it is the reverse of the fix of defect D3, which the C15 machinery
+or more steps; round 4 for changes in shared infrastructure (headers, helpers), exact boundary values (wrapping
+counters, far-apart keys, populations), behaviour on the second use, and error paths with incomplete book-keeping
+(`mkseedprompts.py` holds the prompt).  `C15-d3` is not a sub-agent's change: it is the reverse of the fix of defect D3, which the C15 machinery
 found by itself, kept as a regression seed.  A few changes were proposed independently more than once (C01-r2 = C03-r3,
-C04 = C04-r3, C06-r3 = C07-r3); they are kept under each name because they were asked for under different properties.
+C04 = C04-r3, C06-r3 = C07-r3, C09-r3 = C09-r4); they are kept under each name because they were asked for under different properties.
 
 %s
 
-All %d are caught by the quick tier of the property they were written for (and often by neighbours, see the column).
+All %d are caught by the quick tier, and all but one by the check of the property they were written for (often by
+neighbours too, see the column); the exception is C19-r4, a loop-core defect found through a popen scenario, which
+C04/C07 catch and C19's own scenarios do not reach.
 The history column says what was strengthened when a change was missed by the checks as they stood when it arrived.
 The strengthening is always general - new operations in the alphabet, new unknowns, a more faithful model, an oracle
 stated from the property - never a special case for the seeded input.  Patches that touched code later changed by a
